@@ -150,6 +150,45 @@ PROPS['C18'] = dict(
     note='Trusted: Coq kernel, model, extraction, harness. No axioms. Environment assumption (explicit): acknowledgements carry '
          'the packet type matching the operation (the client matches acks to entries by identifier only).')
 
+PROPS['C08'] = dict(
+    codec=[('decode_exh', 0, 0), ('decode_hdr', 0, 0), ('decode_utf8', 0, 0), ('decode_gen', 3000, 40000),
+           ('decode_props', 2000, 30000), ('reader', 2000, 30000)],
+    sess=[('sess_c08', 300, 4000)],
+    events='wrf', state=['ret', 'rel', 'ctl', 'srv', 'live', 'conn', 'rb', 'pl', 'quota'],
+    monitors=[M.mon_panic, M.mon_c08, M.mon_c11],
+    title='any inbound bytes: valid packets accepted verbatim, malformed rejected, no panic',
+    claim='Proved in Coq: variable byte integers round-trip and the reader accepts exactly the canonical encodings (<= 4 bytes, '
+          '<= 268435455); the packet reader\'s lax length probe agrees with the canonical reader; the first byte is accepted '
+          'exactly for the types/flags MQTT 5 lets a server send (all 256 values, vm_compute over the whole domain lifted by '
+          'forallb_forall) and everything else is rejected; non-canonical/oversized remaining length, trailing bytes, invalid '
+          'UTF-8 topic and a declared length beyond the receive buffer are rejected; every PUBLISH (all lengths, QoS, flags, any '
+          'well-formed property list) decodes to exactly the fields sent and its property block iterates to exactly the '
+          'properties. Decoder, reader and iterator are total functions. Tied to the code by exhaustive sweeps (all byte strings '
+          'of length <= 2, all 256 first bytes x 1..5-byte length forms, all short UTF-8 sequences) and generated + mutated '
+          'packets through the decoder hook, the reader hook and live sessions; panics are caught (debug profile).',
+    note='Trusted: Coq kernel, model, extraction, harness, decode/reader hooks. No axioms. Panics inside serde / heapless / core '
+         'are covered only by the differential run under catch_unwind. A genuine defect found while proving the round trip '
+         '(four-byte integers above 33554431 rejected) was repaired by fix dd0420c. Observations outside the property\'s list: '
+         'DUP=1 on QoS 0 and packet identifier 0 are accepted.')
+PROPS['C09'] = dict(
+    codec=[('encode', 500, 8000), ('valid', 0, 0)],
+    sess=[('sess_c05', 200, 3000), ('sess_c19', 100, 2000)],
+    events='w', state=['cid', 'ka', 'conn'],
+    monitors=[M.mon_c09],
+    title='what the broker decodes is exactly what the application asked to send',
+    claim='Proved in Coq: Property::size equals the bytes emitted for all 27 kinds and all values, hence the declared block '
+          'length is exact; the serializer writes the concatenation of all fields or fails (nothing truncated), a successful '
+          'encoding fits its buffer with the header right-aligned and type/flags in the first byte; decoding the encoded PUBLISH '
+          'yields precisely the request (topic, identifier, QoS, retain, DUP, every property, payload; all lengths symbolic, so '
+          'the 127/128, 16383/16384, 2097151/2097152 boundaries are covered by the proof); CONNECT clean start and client id '
+          'mirror the session. Tied to the code by byte-for-byte comparison of all encoders (CONNECT with all will/auth/QoS/'
+          'retain combinations, PUBLISH, SUBSCRIBE with all option combinations, UNSUBSCRIBE, DISCONNECT, acks) over generated '
+          'requests and buffer sizes from 0 to beyond the need, and by an independent Python MQTT parser on session wires.',
+    note='Trusted: Coq kernel, model, extraction, harness, encoder hooks, Python parser. No axioms. The full decode-equals-request '
+         'theorem is proved for PUBLISH; CONNECT/SUBSCRIBE/UNSUBSCRIBE/DISCONNECT are covered by the size/content lemmas and '
+         'the differential check against the independent parser (partial in that respect). The keep-alive clause was false on '
+         'the unchanged tree; repaired by fix 2bb8a2d.')
+
 TRUSTED_BASE = [
     'Coq 8.16.1 kernel and its bytecode VM (vm_compute); native_compute is not used',
     'axioms: none (every property theorem is reported "Closed under the global context" by Print Assumptions)',
